@@ -4,7 +4,12 @@
 # affected functions must exit 1 and name an obligation matching the recorded regex.
 cd "$(dirname "$0")/.."
 export GOFLAGS=-mod=mod GOPROXY=off GOSUMDB=off GOTOOLCHAIN=local
-IDS="$@"; [ -z "$IDS" ] && IDS=$(python3 -c "import json;print(' '.join(sorted(json.load(open('selftest/mutants/index.json')))))")
+if [ "${1:-}" = "--prop" ]; then
+  IDS=$(python3 -c "import json,sys;m=json.load(open('selftest/mutants/index.json'));print(' '.join(sorted(k for k,v in m.items() if v['property']==sys.argv[1])))" "$2")
+  [ -z "$IDS" ] && { echo "selftest: caught=0 missed=0 skipped=0 (no mutants registered for $2)"; exit 0; }
+else
+  IDS="$@"; [ -z "$IDS" ] && IDS=$(python3 -c "import json;print(' '.join(sorted(json.load(open('selftest/mutants/index.json')))))")
+fi
 pass=0; fail=0; skip=0
 for id in $IDS; do
   read PROP FN EXPECT <<<$(python3 -c "import json;m=json.load(open('selftest/mutants/index.json'))['$id'];print(m['property'],m['fn'],m['expect'])")
